@@ -350,7 +350,7 @@ Definition relayed_attr (l : list sattr) : option addr :=
 
 Definition chk_C19_step (before : list obs_alloc) (o : ostep) : bool :=
   match os_ev o with
-  | EReq src tid _ r _ =>
+  | EReq src tid _ r unk =>
       (* correlated: at most one answer, to the source, with the request's id and method *)
       match replies (os_acts o) with
       | [] => true
@@ -376,7 +376,15 @@ Definition chk_C19_step (before : list obs_alloc) (o : ostep) : bool :=
           addr_eqb d src && (t =? tid)%N && method_eqb m (req_method r) &&
           (* 437 changes nothing *)
           (if (code =? 437)%N then mset_eqb obs_alloc_eqb before (os_allocs o) && match lifes (os_acts o) with [] => true | _ => false end
-           else true)
+           else true) &&
+          (* an Allocate on a 5-tuple that holds an allocation is refused with 437 - or with what authentication or an unknown
+             comprehension-required attribute alone decide (C03 pins those down): never with anything else *)
+          match r with
+          | RqAllocate _ _ _ _ _ _ _ _ =>
+              match find_oalloc src before with
+              | Some _ => (code =? 437)%N || (code =? 400)%N || (code =? 401)%N || (code =? 438)%N || (unk && (code =? 420)%N)
+              | None => true end
+          | _ => true end
       | _ => false
       end
   | _ => match replies (os_acts o) with [] => true | _ => false end
